@@ -660,6 +660,18 @@ def enter_facts(run, cls):
             elif dotted(n.func) == "next" and len(n.args) == 1:
                 adv.add("advance")
     facts["enter.advances-dog"] = (tuple(sorted(adv)), run.site(f))
+    # which test selects the scheduler's own doers/deeds: must be identity with None (extend passes a possibly empty list)
+    forms = set()
+    pname = f.params()[0][1] if len(f.params()[0]) > 1 else "doers"
+    for n in walk_local(f.node):
+        if isinstance(n, ast.If) and any(isinstance(s, ast.Assign) and dotted(s.value) == "self.deeds" for s in n.body + n.orelse):
+            t = n.test
+            if isinstance(t, ast.Compare) and dotted(t.left) == pname and isinstance(t.ops[0], (ast.Is, ast.IsNot)) \
+                    and getattr(t.comparators[0], "value", 0) is None:
+                forms.add("is-none")
+            else:
+                forms.add("other:" + unparse(t))
+    facts["enter.own-deeds-selected-by"] = (tuple(sorted(forms)), run.site(f))
     return facts
 
 
@@ -1218,6 +1230,7 @@ def scheduler_fact_bundle(run, cls):
     ef["enter.tymth-injected"] = (tuple("own-tymth" if x in ("self.tymen()", "self.tymth") else x for x in v), site)
     out.update(ef)
     out.update(extend_facts(run, cls))
+    out.update(extend_atomic_facts(run, cls))
     out.update(remove_facts(run, cls))
     for meth, what in (("recur", "recur"), ("remove", "remove")):
         f = ix.method(cls, meth)
@@ -1318,3 +1331,31 @@ def kwarg_(call, name):
         if k.arg == name:
             return k.value
     return None
+
+
+# ------------------------------------------------------------ C06 atomic extend
+class ExtendAtomic(Domain):
+    """state = membership (self.doers) already changed"""
+
+    def initial(self):
+        return False
+
+    def on_event(self, node, state):
+        if isinstance(node, ast.Call):
+            mc = method_call(node)
+            if mc and mc[0] == "self.doers" and mc[1] in MUTATORS:
+                yield True, NORMAL
+                return
+            if is_self_call(node, "enter"):
+                yield state, NORMAL
+                yield state, RAISE("Exception")
+                return
+        yield state, NORMAL
+
+
+def extend_atomic_facts(run, cls):
+    f = run.ix.method(cls, "extend")
+    res = Interp(ExtendAtomic(), run.lat).run(f.node)
+    run.paths += len(res)
+    bad = [tr for (st, oc), tr in res.items() if is_raise(oc) and st]
+    return {"extend.failed-enter-leaves-doers-unchanged": (not bad, run.site(f))}
